@@ -129,9 +129,12 @@ func c18Monitor(k, j int) {
 		}
 		pm.RecordSearchOperation(3*time.Millisecond, 2, hit, 5)
 	}
+	opCount := map[string]int{}
 	for i := 0; i < j; i++ {
 		op := []string{"load", "save"}[verifIntRange("op", 0, 1)]
-		pm.RecordDatabaseOperation(op, time.Millisecond, verifBool("success"))
+		ok := verifBool("success")
+		pm.RecordDatabaseOperation(op, time.Millisecond, ok)
+		opCount[pm.collector.metricKey("database_operations_total", map[string]string{"operation": op, "success": map[bool]string{true: "true", false: "false"}[ok]})]++
 	}
 	verifMapOrder(1)
 	sumNamed := func(name string) int64 {
@@ -156,6 +159,12 @@ func c18Monitor(k, j int) {
 	verifAssert(sumNamed("cache_hits_total")+sumNamed("cache_misses_total") == int64(k), "C18: cache hits plus misses equal the number of searches recorded")
 	verifAssert(sumNamed("cache_hits_total") == int64(hits), "C18: cache hits are counted as hits")
 	verifAssert(sumNamed("database_operations_total") == int64(j), "C18: the per-operation total equals the number of operations recorded")
+	// ... and per identity: each (operation, outcome) series holds exactly its own events
+	for key, c := range pm.collector.counters {
+		if c.name == "database_operations_total" {
+			verifAssert(c.Value() == int64(opCount[key]), "C18: every event recorded for one series lands in that series (operation, outcome)")
+		}
+	}
 	// one series per distinct (operation, success) identity: never more series than identities
 	verifAssert(seriesNamed("searches_total") <= 2, "C18: at most one searches_total series per cache_hit value")
 	verifAssert(seriesNamed("database_operations_total") <= j && seriesNamed("database_operations_total") <= 4, "C18: at most one series per (operation, success) identity")
@@ -249,4 +258,24 @@ func VerifHarness_C18_Overflow() {
 	verifAssert(h.Count() == int64(n), "C18: a histogram reports exactly as many observations as were made")
 	verifAssert(h.Percentile(99) > 0, "C18: percentiles of positive observations are positive")
 	verifReach("observed")
+}
+
+// no tags at all, given as nil or as an empty map: one identity
+func VerifHarness_C18_Identity0() {
+	c := NewCollector()
+	a := c.Counter("events", nil)
+	b := c.Counter("events", map[string]string{})
+	verifAssert(a == b, "C18: the same name and tags always yield the same counter (no tags: nil or empty)")
+	verifAssert(c.Histogram("lat", map[string]string{}) == c.Histogram("lat", nil), "C18: the same name and tags always yield the same histogram (no tags: nil or empty)")
+	a.Inc()
+	b.Inc()
+	verifAssert(a.Value() == 2, "C18: every event recorded for one series lands in one series")
+	n := 0
+	for _, m := range c.GetAllMetrics() {
+		if m.Name == "events" {
+			n++
+		}
+	}
+	verifAssert(n == 1, "C18: one identity, one series")
+	verifReach("identity")
 }
